@@ -196,7 +196,39 @@ def check_basis(case):
     return OK(nt, *labels)
 
 
-CHECKS = {"basis": check_basis}
+def check_long_element(case):
+    """Bases with an element of 7 points (sums / skew sums of shorter pin permutations): the
+    routes must agree, and a class of polynomial growth (decided by C13's structure theorem,
+    evaluated here with the reference model) has finitely many simples.  One evaluation costs
+    most of a minute (all pin words of length 7), so only a handful are run."""
+    from .c13 import o_polynomial
+
+    perms = [tuple(p) for p in case["perms"]]
+    P = [Perm(p) for p in perms]
+    verdict = PW.has_finite_simples(P)
+    others = {
+        "Av.has_finitely_many_simples": Av(P).has_finitely_many_simples(),
+        "FinitelyManySimplesStrategy.applies": FinitelyManySimplesStrategy(P).applies(),
+        "reversed_listing": PW.has_finite_simples(list(reversed(P))),
+    }
+    for name, val in others.items():
+        if val != verdict:
+            return BAD("long_element_entry_points_disagree", {"basis": [list(p) for p in perms], "PinWords.has_finite_simples": verdict, name: val})
+    if o_polynomial(perms) and not verdict:
+        return BAD("long_element_polynomial_class_infinite_simples", {"basis": [list(p) for p in perms]})
+    return OK(True, "long_element_finite" if verdict else "long_element_infinite")
+
+
+CHECKS = {"basis": check_basis, "long_element": check_long_element}
+
+# classes of polynomial growth whose last surviving pin sequences are killed by a decomposable
+# element of 7 points (the first two) and relatives
+LONG_BASES = [
+    [[0, 1, 2], [3, 2, 1, 4, 0], [6, 4, 5, 3, 2, 1, 0]],
+    [[2, 1, 0], [2, 3, 0, 1, 4], [0, 1, 4, 2, 5, 3, 6]],
+    [[0, 1, 3, 2], [2, 1, 0, 3], [5, 3, 6, 4, 2, 0, 1]],
+    [[3, 0, 1, 2], [3, 2, 1, 0], [1, 0, 4, 2, 6, 3, 5]],
+]
 
 
 # ------------------------------------------------------------------ generators
@@ -310,7 +342,14 @@ def shard_exhaustive(acc, shard, nshards, nmax):
         i += 1
 
 
+def shard_long(acc, shard, nshards, count):
+    for i, basis in enumerate(LONG_BASES[:count]):
+        if (nshards - 1 - i) % nshards == shard:
+            acc.record("long_element", check_long_element, {"perms": basis})
+
+
 def shard_generated(acc, shard, nshards, n, max_len, nmax):
+    shard_long(acc, shard, nshards, 2 if n < 20 else 4)
     engine.hyp_run(acc, "basis", check_basis, basis_cases(max_len, nmax), n, shard)
 
 
